@@ -107,9 +107,39 @@ def dupfield(chk, P, record, owners, unit_of=None, exceptions=None, rule="R-DUPF
     if rec is None:
         chk.broke("%s: record %s not found" % (rule, record))
         return 0
+    # helpers that receive the new instance from an owner are owners too (an extracted helper keeps the rule's view intact)
+    owners = list(owners)
+    nprim = len(owners) if nprimary is None else nprimary
+    expanded = []
+    seen_o = set(o[0] for o in owners)
+    for oi, (fname, vars_) in enumerate(owners):
+        expanded.append((fname, vars_, oi < nprim))
+        frontier = [(fname, vars_)]
+        depth = 0
+        while frontier and depth < 3:
+            depth += 1
+            nxt = []
+            for fn2, vs in frontier:
+                f2 = P.func(fn2)
+                if f2 is None:
+                    continue
+                for c in f2.calls():
+                    g = P.func(c.get("fn")) if c.get("fn") else None
+                    if g is None or g.entry is None or g.name in seen_o:
+                        continue
+                    pv = []
+                    for i, a in enumerate(args(c)):
+                        k = lv(a)
+                        if k in vs and i < len(g.params):
+                            pv.append(g.params[i]["n"])
+                    if pv:
+                        seen_o.add(g.name)
+                        expanded.append((g.name, pv, oi < nprim))
+                        nxt.append((g.name, pv))
+            frontier = nxt
     got = {}
     prim = set()
-    for oi, (fname, vars_) in enumerate(owners):
+    for oi, (fname, vars_, is_prim) in enumerate(expanded):
         f = P.func(fname)
         if f is None:
             chk.broke("%s: owner function %s vanished" % (rule, fname))
@@ -123,7 +153,7 @@ def dupfield(chk, P, record, owners, unit_of=None, exceptions=None, rule="R-DUPF
         if everything:
             for fld in rec["fields"]:
                 got.setdefault(fld["n"], "%s (whole-record copy at %s)" % (fname, everything))
-        if nprimary is None or oi < nprimary:
+        if is_prim:
             prim |= set(got) - before
     n = 0
     anchor = P.func(owners[0][0])
@@ -137,7 +167,7 @@ def dupfield(chk, P, record, owners, unit_of=None, exceptions=None, rule="R-DUPF
         elif nm in got and nm in defaulted:
             chk.inst(rule, anchor, "%s.%s" % (record, nm), True, "intentionally re-initialised, not copied (%s): %s" % (got[nm], defaulted[nm]), nontrivial=False)
         elif nm in got:
-            chk.inst(rule, anchor, "%s.%s" % (record, nm), False, "field %s is only default-initialised on the copy (%s): the duplication functions %s do not copy it and it is not a listed re-initialised field" % (nm, got[nm], [o[0] for o in owners[:nprimary]]))
+            chk.inst(rule, anchor, "%s.%s" % (record, nm), False, "field %s is only default-initialised on the copy (%s): the duplication functions %s do not copy it and it is not a listed re-initialised field" % (nm, got[nm], [o[0] for o in expanded if o[2]]))
         elif nm in exceptions:
             chk.inst(rule, anchor, "%s.%s" % (record, nm), True, "frozen exception: %s" % exceptions[nm], nontrivial=False)
         else:
